@@ -27,7 +27,7 @@ ENC = ("indi.routing.router.Router.process_message", "indi.routing.router.Router
 BOUNDS = {
     "quick": "3 clients (one with symbolic registration), device names {A, B, none}, 4 policy values incl. unset for (c0,A) (c0,B) (c1,msg "
              "device), every device-originated kind incl. the getProperties relay; inductive step + 2-step histories",
-    "thorough": "as quick with both (c1,A) (c1,B) symbolic and 3-step histories",
+    "thorough": "as quick with both (c1,A) (c1,B) symbolic and 2-step histories for every kind",
 }
 OUTSIDE = "more than 3 clients / 2 device names; a client registered twice without unregistering"
 ASSUMPTIONS = ["the sender of enableBLOB is a registered client",
@@ -260,7 +260,7 @@ def conditions(tier):
     hk = KINDS if thorough else ["SetBLOBVector", "SetTextVector", "DefBLOBVector", "DelProperty", "Message", "GetProperties",
                                  "DefSwitchVector", "SetNumberVector"]
     for kind in hk:
-        k = 3 if (thorough and kind in ("SetBLOBVector", "SetTextVector")) else 2
+        k = 2     # 3 steps: ~28 choices per step (the name bit doubles the policy operations) = 66 000 paths, not finished in 30 min
         out.append(Condition(f"history{k}/{kind}", make_condition(history(kind, k), 0, k + 1, k),
                              about=f"{k} symbolic operations (enableBLOB / unregister / re-register) from the initial state, then {kind}",
                              encodes=ENC, bounds=f"{k} operations out of {len(ops_for(k))}", timeout=900))
